@@ -143,3 +143,11 @@ GROUPS += [
           functions=["ILLread_lp", "read_problem_name", "read_minmax", "ILLread_lp_state_keyword", "ILLtest_lp_state_keyword", "ILLread_lp_state_bad_keyword"],
           props=["C10", "C11", "C18", "C17"], assumed=["lp/sections: the section bodies (read_objective, read_constraints, read_bounds, read_integer), the field scanner, the symbol table constructor and the fill-in steps are ghost-recording stubs with arbitrary results; strcasecmp is modelled by a plain loop; GMP model variant TOKENS"]),
 ]
+
+GROUPS += [
+    Group("rawlp/check", "rawlp_check.c", tus=["rawlp_mpq.c", "allocrus.c"], model=MODEL, dfcc=False, export_static=True, unwind=5, kind="bounded", namebuf=512, timeout=900,
+          remove_bodies=["mpq_ILLraw_colname", "mpq_ILLraw_rowname", "mpq_ILLdata_error"],
+          bound="raw problems of 0..2 columns without special ordered sets, bound values in -2..2 or +-infinity, objective present or not; loops completely unwound",
+          must_fail=["reach_end", "reach_only_last_column_bad"], functions=["ILLcheck_rawlpdata", "ILLraw_check_bounds"], props=["C11", "C17"],
+          assumed=["rawlp/check: static ILLcheck_rawlpdata called through goto-cc --export-file-local-symbols; name accessors and ILLdata_error are stubs; the special-ordered-set part of the check is not reached"]),
+]
